@@ -2669,6 +2669,7 @@ struct TransitionT<void> final
 struct Request final {
 	TransitionType type;
 	Short index;
+	StateID destination;	// only set by R_::applyRequest()
 };
 
 }
@@ -3479,6 +3480,7 @@ RegistryT<ArgsT<TG_, TSL_, TRL_, NCC_, NOC_, NOU_, TRO_ HFSM2_IF_SERIALIZATION(,
 	HFSM2_ASSERT(request.destination < STATE_COUNT);
 
 	Parent parent;
+	bool viaOrthogonal = false;
 
 	for (parent = stateParents[request.destination];
 		 parent;
@@ -3487,14 +3489,23 @@ RegistryT<ArgsT<TG_, TSL_, TRL_, NCC_, NOC_, NOU_, TRO_ HFSM2_IF_SERIALIZATION(,
 		if (parent.forkId > 0) {
 			Prong& requested = compoRequested[parent.forkId - 1];
 
-			requested = parent.prong;
+			if (viaOrthogonal && compoActive[parent.forkId - 1] == parent.prong) {
+				// the orthogonal region on the way is active: only its addressed prongs are affected,
+				// re-entering it as a whole would re-resolve the untouched ones as well
+				if (requested != parent.prong)
+					requested  = INVALID_PRONG;
+			} else
+				requested = parent.prong;
+
 			parent = forkParent(parent.forkId);
 
 			break;
 		}
 		else
-		if (parent.forkId < 0)
+		if (parent.forkId < 0) {
 			requestedOrthoFork(parent.forkId).set(parent.prong);
+			viaOrthogonal = true;
+		}
 		else
 			HFSM2_BREAK();
 	}
@@ -12181,9 +12192,14 @@ C_<TN_, TA_, SG_, TH_, TS_...>::deepForwardActive(Control& control,
 	const Prong requested = compoRequested(control);
 
 	if (requested == INVALID_SHORT) {
-		const Prong active = compoActive(control);
+		if (request.destination == HEAD_ID)
+			// reached through orthogonal regions only: this region is the destination
+			deepRequest(control, request);
+		else {
+			const Prong active = compoActive(control);
 
-		SubStates::wideForwardActive (control, request, active);
+			SubStates::wideForwardActive(control, request, active);
+		}
 	} else
 		SubStates::wideForwardRequest(control, request, requested);
 }
@@ -15731,7 +15747,7 @@ R_<TG_, TA_>::reset() noexcept {
 	// TODO: clear _core.planData		// HFSM2_IF_PLANS()
 	// TODO: clear _activityHistory		// HFSM2_IF_STRUCTURE_REPORT()
 
-	_apex.deepRequestChange(control, {TransitionType::RESTART, INVALID_SHORT});
+	_apex.deepRequestChange(control, {TransitionType::RESTART, INVALID_SHORT, INVALID_STATE_ID});
 	_apex.deepEnter(control);
 
 	_core.registry.clearRequests();
@@ -15821,7 +15837,7 @@ R_<TG_, TA_>::initialEnter() noexcept {
 
 	PlanControl control{_core, currentTransitions};
 
-	_apex.deepRequestChange(control, {TransitionType::CHANGE, INVALID_SHORT});
+	_apex.deepRequestChange(control, {TransitionType::CHANGE, INVALID_SHORT, INVALID_STATE_ID});
 
 	approvedByEntryGuards(currentTransitions,
 						  pendingTransitions);
@@ -16004,10 +16020,10 @@ R_<TG_, TA_>::applyRequest(Control& control,
 #endif
 
 		if (request.destination == 0)
-			_apex.deepRequest      (control, {request.type, index});
+			_apex.deepRequest      (control, {request.type, index, request.destination});
 		else {
 			_core.registry.requestImmediate(request);
-			_apex.deepForwardActive(control, {request.type, index});
+			_apex.deepForwardActive(control, {request.type, index, request.destination});
 		}
 		break;
 
@@ -16678,7 +16694,7 @@ RV_<G_<NFT_, TC_, Manual, TRO_ HFSM2_IF_UTILITY_THEORY(, TR_, TU_, TG_), NSL_ HF
 		TransitionSets emptyTransitions;
 		PlanControl control{_core, emptyTransitions};
 
-		_apex.deepRequestChange(control, {TransitionType::CHANGE, INVALID_SHORT});
+		_apex.deepRequestChange(control, {TransitionType::CHANGE, INVALID_SHORT, INVALID_STATE_ID});
 
 		// the recorded requests may well lead back to the default activation
 		applyRequests(control, transitions, count);
